@@ -295,7 +295,10 @@ class ConcEnv:
             self.assume_failed.append(label or "assumption")
 
     def installed(self, patches):
-        return nullcontext()
+        # the shims are for the symbolic run only; a patch marked "concrete" (4th element) is an environment stub that is fed
+        # from the model when a counterexample is replayed (e.g. the output of an external optimizer)
+        keep = [p[:3] for p in patches if len(p) > 3 and p[3] == "concrete"]
+        return Installed(keep) if keep else nullcontext()
 
     def heap(self, objs):
         pass
